@@ -37,7 +37,7 @@ def required_cells(tier):
               "PL/normal-scaled", "PL/normal-negated", "PL/three-point-form", "PL/two-vector-form", "S/swapped",
               "S/point-vector-form", "H/direction-scaled", "H/two-point-form", "PG/rotated", "PG/reflected", "PG/duplicates",
               "PG/shuffled", "PH/face-order", "PH/face-orientation", "any/numeric-type", "any/move-and-back", "any/used-then-moved-into-place", "any/negative-zero",
-              "any/other-of-(receiver,returned)-moved-on", "any/built-from-points-with-a-past"):
+              "any/other-of-(receiver,returned)-moved-on", "any/built-from-points-with-a-past", "any/float-noise-copy"):
         req["variant:" + v] = 15 if q else 300
     req["foreign-type"] = 100
     req["near-miss:coordinate -1 vs -2"] = 50
@@ -150,6 +150,12 @@ def _variant(G, d, r):
         o.move(_V(G, v))
         o2 = o.move(_V(G, K.mul(v, -1)))
         return "any/move-and-back", (o if r.random() < 0.5 else o2)
+    if ch < 0.34 and k != "VEC":
+        # the same object with the rounding noise computed values carry (every coordinate off by a few ulps, zeros by
+        # 1e-17 .. 2e-16; every copy of a shared vertex drawn afresh): equal for every comparison the library makes, so it
+        # has to hash alike too
+        from ..desc import noisy
+        return "any/float-noise-copy", lift(d, None, noisy(r))
     if k == "P":
         return "P/list-form", G.Point([float(c) for c in d[1]])
     if k == "VEC":
@@ -351,7 +357,7 @@ def judge(case):
     A = lift(d, None)
     mu.cell("same:" + k, "variant:" + lab)
     # the variant must really denote the same set (guards the harness itself)
-    if k != "VEC":
+    if k != "VEC" and lab != "any/float-noise-copy":
         same, why = same_set(lower(B), d)
         if not same:
             # (on the pinned tree this never happens in 10^6 variants: the variant constructions themselves are sound)
